@@ -131,12 +131,9 @@ def fn_key(path):
     p = strip_generics(path)
     p = re.sub(r"<'[a-z_]+>", "", p)
     # closure numbering shifts when an unrelated closure is added: keep only the coroutine marker of async fns
-    head, sep, tail = p.partition("::{closure#0}")
-    tail = re.sub(r"\{closure#\d+\}", "{closure}", tail)
-    p = head + sep + tail
-    if not sep:
-        p = re.sub(r"\{closure#\d+\}", "{closure}", p)
-    return p
+    # a closure belongs to the function that creates it: whether a step is written inline or inside a `.map(|x| ..)`
+    # closure does not change the key (ordinals keep equal texts apart)
+    return re.sub(r"(::\{closure#\d+\})+$", "", p)
 
 
 def prov(body, op, limit=4):
@@ -205,8 +202,6 @@ def operand_text(body, op, depth=0):
         return _ty_word(tys[-1] if tys else "captured")
     if l in body.names and not (depth < 6 and _is_alias(body, l)):
         # a user variable holding a value of its own: rendered by its type, so that renaming it changes nothing
-        if 1 <= l <= body.fn["arg_count"] and body.fn["kind"] == "fn":
-            return ".".join(["arg%d" % l] + proj)
         return ".".join([_ty_word(body.locals[l]["ty"])] + proj)
     if depth < 6:
         ds = body.whole_defs(l)
@@ -238,7 +233,7 @@ def operand_text(body, op, depth=0):
                 base = "%s(%s)" % (nm, ",".join(args))
                 return ".".join([base] + proj) if proj else base
     if 1 <= l <= body.fn["arg_count"]:
-        return ".".join(["arg%d" % l] + proj)
+        return ".".join([_ty_word(body.locals[l]["ty"])] + proj)
     return ".".join(["_"] + proj) if proj else "_"
 
 
@@ -719,6 +714,13 @@ def _len_guards(body, bb):
             continue
         for x, y, op in ((c.a, c.b, c.op), (c.b, c.a, {"Lt": "Gt", "Gt": "Lt", "Le": "Ge", "Ge": "Le", "Eq": "Eq", "Ne": "Ne"}[c.op])):
             lo = body.origin(x, through_calls=False)
+            if lo[0] == "rv" and lo[2]["rv"]["k"] == "un" and lo[2]["rv"]["op"] == "PtrMetadata":
+                # the length of a slice as a slice pattern (`&[a, b, ..]`) reads it
+                eff = op if truth else {"Lt": "Ge", "Ge": "Lt", "Gt": "Le", "Le": "Gt", "Eq": "Ne", "Ne": "Eq"}[op]
+                ids = _buf_ids(body, lo[2]["rv"]["a"])
+                if not _mutated_between(body, ids, s_, bb):
+                    out.append((ids, eff, y, d))
+                continue
             if lo[0] == "call" and re.search(r"(::len|::remaining)$", callee_name(lo[2]) or ""):
                 eff = op if truth else {"Lt": "Ge", "Ge": "Lt", "Gt": "Le", "Le": "Gt", "Eq": "Ne", "Ne": "Eq"}[op]
                 ids = _buf_ids(body, lo[2]["ops"][0])
